@@ -78,6 +78,14 @@ func semanticTokensForTraversal(traversal hcl.Traversal) []lang.SemanticToken {
 			// for index steps we only report
 			// what's inside brackets
 			rng := t.SourceRange()
+			// legacy index syntax (foo.0) has no closing bracket
+			closing := 1
+			if ts.Key.Type() == cty.Number {
+				digits := len(ts.Key.AsBigFloat().Text('f', -1))
+				if rng.End.Byte-rng.Start.Byte == digits+1 {
+					closing = 0
+				}
+			}
 			idxRange := hcl.Range{
 				Filename: rng.Filename,
 				Start: hcl.Pos{
@@ -87,8 +95,8 @@ func semanticTokensForTraversal(traversal hcl.Traversal) []lang.SemanticToken {
 				},
 				End: hcl.Pos{
 					Line:   rng.End.Line,
-					Column: rng.End.Column - 1,
-					Byte:   rng.End.Byte - 1,
+					Column: rng.End.Column - closing,
+					Byte:   rng.End.Byte - closing,
 				},
 			}
 
